@@ -6,7 +6,24 @@ COMMON_TRUSTED = [
     "the Go harness: generators, renderers, canonicaliser of observed answers, emitter of Coq case files",
 ]
 
+ENGINE_TRUSTED = COMMON_TRUSTED + [
+    "hand-written machine model M (Model/Machine.v, Clause.v, Unify.v, Order.v): tied to engine/*.go by the correspondence run only",
+    "reference semantics S (Model/Sld.v): the statement of what standard Prolog execution is",
+    "Gen/Bootstrap_gen.v is regenerated from bootstrap.pl through the implementation's own parser (trusted for this purpose)",
+]
+ENGINE_MODEL_DEPS = ["Model/MachineCheck.v"]
+
 SPECS = {
+    "C01": dict(
+        level="proof",
+        props_deps=["Proofs/Promise.v", "Proofs/Trampoline.v"],
+        model_deps=ENGINE_MODEL_DEPS,
+        trusted=ENGINE_TRUSTED,
+        assumptions=["programs that build cyclic terms are outside the quantifier (the engine dies on them); such cases are dropped and counted",
+                     "runs cut off by the 150 ms budget or by the model's fuel are dropped and counted"],
+        explanation="every generated program+query is run on the implementation, on the machine model M and on the reference semantics S "
+                    "(vm_compute); C<>S is a failing input of the property, C<>M a broken correspondence",
+    ),
     "C07": dict(
         level="proof",
         props_deps=["Proofs/ArithInt.v", "Gen/Arith_gen.v"],
